@@ -1627,7 +1627,8 @@ class zip(Stream):
 
     def _remove_upstream(self, upstream):
         # Override method to handle removal of buffer for stream
-        self.buffers.pop(upstream)
+        for _, metadata in self.buffers.pop(upstream):
+            self._release_refs(metadata)
         super(zip, self)._remove_upstream(upstream)
 
     def pack_literals(self, tup):
